@@ -11,11 +11,11 @@ CORE_NOTE = ("Trusted: Lean 4.33 kernel (axioms propext, Classical.choice, Quot.
 
 P = {
  "C01": ("Lean 4 proof over the interpreter model (ev) + differential correspondence (eval/keys/cache facets) + cached-vs-uncached oracle",
-         "Theorems about the model's cache discipline (LabreaProps/C01.lean) for every program, dictionary and history; the model is tied to the code by correspondence on random histories, and every evaluation is paired with its labrea.cache.disabled() twin on the real code (plus model-guided single-key perturbations). Full transparency is false on the current tree for the catch positions of coalesce/switch (F18/F19) and brace re-substitution (F22): those are listed known findings; the proved statement excludes them explicitly."),
+         "Theorems about the model's cache discipline (LabreaProps/C01.lean) for every program, dictionary and history; the model is tied to the code by correspondence on random histories, and every evaluation is paired with its labrea.cache.disabled() twin on the real code (plus model-guided single-key perturbations). Full transparency is false on the current tree for the catch positions of coalesce/switch (F18/F19), brace re-substitution (F22) and parameter references in option values (F26): those are listed known findings; the proved statement excludes them explicitly."),
  "C02": ("Lean 4 proof (trace/cache invariants of ev) + correspondence (trace/cache facets) + body/effect execution counters",
          "Model-level invariants on cache events for all histories; implementation side counts body and effect executions per dataset across exact repeats, repeats with never-mentioned keys, and top-level permutations."),
  "C03": ("Lean 4 proof (keys present, fingerprint is a function of sorted reported keys/values) + correspondence + restrict-and-re-evaluate oracle under several PYTHONHASHSEEDs",
-         "Theorems on the model's keys()/fingerprint for all programs; implementation oracle restricts options to keys() with an independent restrict, re-evaluates, perturbs inside/outside the reported keys and checks the fingerprint bytes against the independent expectation, in processes with different hash seeds. Sufficiency is false for effects reading options (F9) and catch positions (F18/F19): listed known findings."),
+         "keys_present_only / fingerprint_defined are proved for the whole interpreter (every expression, options, state: each reported key is present in the caller's dictionary, also below pre-set/default-option wrappers and Map assignments; AllOptions excepted), with fingerprint_agree / fingerprint_injective on the model's keys()/fingerprint for all programs; implementation oracle restricts options to keys() with an independent restrict, re-evaluates, perturbs inside/outside the reported keys and checks the fingerprint bytes against the independent expectation, in processes with different hash seeds. Sufficiency is false for effects reading options (F9), catch positions (F18/F19) and brace re-substitution (F22): listed known findings. The read log of the model is tied to the library's dotted lookups (facet reads)."),
  "C04": ("Lean 4 proof (Option resolution case analysis, set/get on dotted paths) + correspondence + independent dotted-lookup oracle",
          "Theorems about optionOp / walk / setPath / mix for all keys, values and dictionaries; implementation compared with an independent lookup over the key x value x default x domain universe and with fully-qualified Options for namespaces; scalar-prefix keys (F10) and index segments in Option.set (F17) are listed known findings."),
  "C05": ("Lean 4 proof (per-combinator semantic equations of the interpreter model) + exhaustive small trees and random trees against the model as eager reference",
@@ -27,11 +27,11 @@ P = {
  "C08": ("Lean 4 proof (overlay equations, mix lookup algebra) + correspondence + independent-overlay oracle + input snapshots",
          "Theorems: WithOptions/WithDefaultOptions/dataset options evaluate the inner expression under mix; mix lookup lemmas for nested sections. Non-mutation of inputs cannot be a theorem about an immutable model: it is decided by deep snapshots around every operation (correspondence level for that clause)."),
  "C09": ("Lean 4 proof (template scanner/resolve properties, read log) + correspondence + independent substitution oracle recording reads",
-         "Theorems about findKeys/resolveR (reads are logged, keys cover reads for templates built from plain keys); implementation compared with an independent substitution over the template atom alphabet; re-substitution of brace-containing text (F22) is a listed known finding."),
+         "Theorems about findKeys/resolveR (reads are logged, keys cover reads for templates built from plain keys); implementation compared with an independent substitution over the template atom alphabet; re-substitution of brace-containing text (F22) and option values referring to template parameters (F26) are listed known findings."),
  "C10": ("Lean 4 proof (validate success excludes missing-option failure for Option/Template fragment) + correspondence + validate/keys/evaluate agreement oracle cold and warm",
-         "Agreement is checked on the real code for random graphs with total callables (and a stream with raising bodies for the weaker clause); theorems cover the model fragment stated in LabreaProps/C10.lean; F9/F20/F21/F22 are listed known findings."),
+         "Agreement is checked on the real code for random graphs with total callables (and a stream with raising bodies for the weaker clause); theorems cover the model fragment stated in LabreaProps/C10.lean; F9/F20/F21/F22/F26 are listed known findings."),
  "C11": ("Lean 4 proof (explain/keys inclusion on the fragment) + correspondence + explain/keys/validate relations on every sub-dictionary chain",
-         "Implementation oracle checks the four relations of the property on increasing sub-dictionaries; theorems on the model fragment in LabreaProps/C11.lean."),
+         "Implementation oracle checks the four relations of the property on increasing sub-dictionaries; theorems on the model fragment in LabreaProps/C11.lean. Raw TypeError through scalar prefixes (F10) and Map.explain's static fallback (F27) are listed known findings with kernel-checked witnesses."),
  "C12": ("Lean 4 proof (every evaluate failure is an EvaluationError whose source is the evaluated node: wrapEvaluate) + correspondence on full cause chains + failure-history oracle",
          "error_source is proved for every program/dictionary/state; cause chains are compared frame by frame with the model under scripted faults; failed evaluations are followed by cache-off twins and by a no-store check on the failing object's cache."),
  "C13": ("Lean 4 proof (linked-list pipeline algebra; generated helper table = hand-written spec by decide) + correspondence + symbolic-operand oracle",
@@ -40,10 +40,10 @@ P = {
          "block_restores / served_by_top / derive_pure proved for all histories of the RuntimeSM model of runtime.py; tied by random histories on the real module in fresh threads."),
  "C15": ("Lean 4 proof (induction over interleavings of atomic steps) + deterministic scheduler driving real threads at op/line/opcode granularity",
          "Non-interference, register_all_present, cache_own_value proved for all interleavings of the atomic-step model; the atomicity assumption is explored by a controlled scheduler up to a preemption bound (bounded part: partial)."),
- "C16": ("Lean 4 proof (cache untouched when caching is disabled: Hoare-style invariant over ev) + correspondence on eval/trace/cache/log facets + switch cross-product oracle",
-         "cache_off_no_io proved for every program; value preservation under every switch setting checked on the real code over the switch cross product within histories."),
+ "C16": ("Lean 4 proof (cache untouched when caching is disabled, no log record when logging is disabled: Hoare-style invariants over ev) + correspondence on eval/trace/cache/log facets + switch cross-product oracle",
+         "cache_off_no_io and logging_off_silent proved for every program, dictionary, state and fuel (whole interpreter); effects_off_none / effects_preserve_value per Computation; value preservation under every switch setting checked on the real code over the switch cross product within histories."),
  "C17": ("Lean 4 proof (scripted-backend model) + correspondence with a scripted Cache subclass + exhaustive fault scripts on the first N backend calls",
-         "The model's scripted cache mirrors a contract-following faulty backend; every evaluation under every fault script must equal its cache-off twin (exhaustive for N=4/6, random beyond)."),
+         "The model's scripted cache mirrors a contract-following faulty backend; every evaluation under every fault script must equal its cache-off twin (exhaustive for N=4/6 on a dataset chain and on a coalesce member, random beyond; fault kinds: miss, lie-exists, fail-get, forget, and a backend that answers without fingerprinting)."),
  "C18": ("Lean 4 proof (hook_total over subclass chains, decide over the generated class table; request events in ev) + reflection + recording pass-through handlers + substitution oracle",
          "Class-creation hooks proved for all chains and instantiated for every class of the package (table regenerated from source); request logs of real evaluations compared with the model's; substitution compared with the model's Env.subst."),
  "C19": ("Lean 4 proof (restrict fold over sorted keys; equality iff restricted options equal) + correspondence + independent restrict oracle + input snapshots",
